@@ -5,6 +5,7 @@ import (
 	"fmt"
 	"go/token"
 	"go/types"
+	"regexp"
 	"sort"
 	"strings"
 
@@ -131,6 +132,10 @@ func goPayloadTable(p *load.Program, typ string) ([]pseg, error) {
 			off++
 		case e.Loop == 1 && strings.HasPrefix(e.LoopX, "range "+recv+"."):
 			out = append(out, pseg{Kind: "array", Name: strings.TrimPrefix(e.LoopX, "range "+recv+"."), Off: off, Width: e.Width})
+			off = -1
+		case e.Loop == 1 && c15countedOver(e, recv) != "":
+			// the same loop written with an index: for i := 0; i < len(b.X); i++ { … b.X[i] … }
+			out = append(out, pseg{Kind: "array", Name: c15countedOver(e, recv), Off: off, Width: e.Width})
 			off = -1
 		case e.Loop == 0 && e.Width > 0 && strings.Contains(f, "(len("):
 			nm := f[strings.Index(f, "(len(")+5:]
@@ -824,6 +829,108 @@ func c15pure(c *Ctx, p *load.Program) {
 		R.Check("C15.pure", R.Key("C15.pure", shortFn(inject), "call:"+cl.Call.StaticCallee().Name()), c.rel(p.Pos(cl.Pos())), "conversion is called with the configured governance emitter and the request's own timestamp / set index", ok2, fmt.Sprintf("%s, %s, %s, %s", facts.Term(a[0]), facts.Term(a[1]), facts.Term(a[3]), facts.Term(a[4])))
 	})
 	R.Floor("C15.pure.conversions", n, 9)
+	// every message of a batch is converted from its own request fields only: no argument of a
+	// conversion, and nothing else that reaches the injected VAA, is carried over from an earlier
+	// iteration of the loop over req.Messages (a variable assigned on some paths only and read on
+	// all — the target chain "inherited" from the previous message)
+	nm := 0
+	for _, l := range facts.LoopsOf(inject) {
+		body := l.Body()
+		eachInstr(inject, func(i ssa.Instruction) {
+			if !body[i.Block()] {
+				return
+			}
+			var vals []ssa.Value
+			what := ""
+			switch x := i.(type) {
+			case *ssa.Call:
+				if x.Call.StaticCallee() == nil || x.Call.StaticCallee().Pkg == nil || x.Call.StaticCallee().Pkg.Pkg.Path() != pkgGuardiand || len(x.Call.Args) != 8 {
+					return
+				}
+				vals, what = x.Call.Args, "call:"+x.Call.StaticCallee().Name()
+			case *ssa.Send:
+				vals, what = []ssa.Value{x.X}, "send:injectC"
+			default:
+				return
+			}
+			nm++
+			carried := ""
+			for k, v := range vals {
+				if ph := carriedState(v, l, 0, map[ssa.Value]bool{}); ph != nil {
+					carried += fmt.Sprintf("operand %d depends on %s, which survives from the previous message; ", k, facts.Term(ph))
+				}
+			}
+			R.Check("C15.pure", R.Key("C15.pure", shortFn(inject), "per-message:"+what), c.rel(p.Pos(i.Pos())), "a message of a batch is converted from its own fields only (nothing carried over from the previous message)", carried == "", carried)
+		})
+	}
+	R.Floor("C15.pure.per-message", nm, 10)
+}
+
+// carriedState: v depends (through pure operators, conversions and non-header phis) on a phi at
+// the header of loop l that is not the loop's own counter — a value that survives from one
+// iteration to the next.
+func carriedState(v ssa.Value, l facts.Loop, depth int, seen map[ssa.Value]bool) *ssa.Phi {
+	if v == nil || depth > 12 || seen[v] {
+		return nil
+	}
+	seen[v] = true
+	switch x := v.(type) {
+	case *ssa.Phi:
+		if x.Block() == l.Header {
+			// the loop counter: advanced by a constant on every back edge
+			counter := true
+			for k, e := range x.Edges {
+				pred := x.Block().Preds[k]
+				if !l.Body()[pred] {
+					continue
+				}
+				b, ok := e.(*ssa.BinOp)
+				if !ok || b.Op != token.ADD || b.X != ssa.Value(x) {
+					counter = false
+				}
+			}
+			if counter {
+				return nil
+			}
+			return x
+		}
+		for _, e := range x.Edges {
+			if r := carriedState(e, l, depth+1, seen); r != nil {
+				return r
+			}
+		}
+	case *ssa.BinOp:
+		if r := carriedState(x.X, l, depth+1, seen); r != nil {
+			return r
+		}
+		return carriedState(x.Y, l, depth+1, seen)
+	case *ssa.UnOp:
+		return carriedState(x.X, l, depth+1, seen)
+	case *ssa.Convert:
+		return carriedState(x.X, l, depth+1, seen)
+	case *ssa.ChangeType:
+		return carriedState(x.X, l, depth+1, seen)
+	case *ssa.MakeInterface:
+		return carriedState(x.X, l, depth+1, seen)
+	case *ssa.Extract:
+		return carriedState(x.Tuple, l, depth+1, seen)
+	case *ssa.FieldAddr:
+		return carriedState(x.X, l, depth+1, seen)
+	case *ssa.IndexAddr:
+		if r := carriedState(x.X, l, depth+1, seen); r != nil {
+			return r
+		}
+		return carriedState(x.Index, l, depth+1, seen)
+	case *ssa.TypeAssert:
+		return carriedState(x.X, l, depth+1, seen)
+	case *ssa.Call:
+		for _, a := range x.Call.Args {
+			if r := carriedState(a, l, depth+1, seen); r != nil {
+				return r
+			}
+		}
+	}
+	return nil
 }
 
 // c15padLoop: the loop header pads module string m on the left to 32 bytes:
@@ -900,4 +1007,17 @@ func c15roundTrip(cv *ssa.Convert) bool {
 		}
 	}
 	return uses > 0
+}
+
+// c15countedOver: the event is the body of `for i := 0; i < len(recv.X); i++` and writes
+// recv.X[i] (or a slice/conversion of it); returns X.
+func c15countedOver(e layout.Ev, recv string) string {
+	m := regexp.MustCompile(`^(\w+) < len\(` + regexp.QuoteMeta(recv) + `\.(\w+)\)$`).FindStringSubmatch(e.LoopX)
+	if m == nil || e.LoopInit != m[1]+" := 0" {
+		return ""
+	}
+	if !strings.Contains(e.Field, recv+"."+m[2]+"["+m[1]+"]") {
+		return ""
+	}
+	return m[2]
 }
